@@ -19,6 +19,7 @@ Two hypotheses appear, both decidable on the input:
   logic; `global_fires_iff_fails`.
 -/
 import SsqlVerif.Proofs.GlobalRun
+import SsqlVerif.Proofs.GlobalCount
 import SsqlVerif.Proofs.GroupKey
 import SsqlVerif.Generated.Facts
 set_option autoImplicit false
@@ -228,6 +229,40 @@ theorem spec_determines_trace [DecidableEq ν] (q : Query α φ ν) (rows : List
 theorem running_aggregate_eq (fn : AggFn) (cs : List (Cell ν)) :
     Acc.result fn (accCells fn cs) = aggList fn cs :=
   result_accCells fn cs
+
+/-! ## a count trigger makes the global window a counting window -/
+
+/-- `TRIGGER WHEN COUNT(*) >= n` (n ≥ 1), any SELECT aggregates, any number of interleaved groups, every history:
+the rows of `r`'s group since its last delivery, `r` included, are never more than n; `r` makes the group deliver
+exactly when they are n; and what is delivered then is every SELECT aggregate over exactly these n rows.  So each
+group's deliveries are the consecutive chunks of n of its rows — the counting window of C09 — which is the shape
+the global-window variants of the C03 / C04 correspondence cases compare with. -/
+theorem count_trigger_is_counting_window (enc : κ → ε) (q : Query α φ Int) (n : Nat) (hn : 0 < n)
+    (h : CountGe q n) (pre : List (Row κ φ Int)) (r : Row κ φ Int) (hK : KeysInj enc (pre ++ [r])) :
+    (segAt enc q pre r).length ≤ n ∧
+    ((outAt enc q pre r).isSome = true ↔ (segAt enc q pre r).length = n) ∧
+    (∀ res, outAt enc q pre r = some res → res = expected q (segAt enc q pre r) r ∧ (segAt enc q pre r).length = n) := by
+  have hlt := openSeg_lt enc q n hn h pre (injOn_prefix enc pre r hK) r.key
+  have hlen : (segAt enc q pre r).length = (openSeg r.key (histOf pre (run enc q pre))).length + 1 := by
+    simp [segAt]
+  have hfire : (outAt enc q pre r).isSome = true ↔ (segAt enc q pre r).length = n := by
+    rw [outAt_isSome enc q pre r hK, engineTrue_countGe q n h]
+    simp only [decide_eq_true_eq]
+    omega
+  refine ⟨by omega, hfire, ?_⟩
+  intro res hres
+  refine ⟨global_result_exact enc q pre r hK res hres, hfire.mp (by simp [hres])⟩
+
+/-- `SELECT COUNT( * ), SUM(f0) … TRIGGER WHEN COUNT( * ) >= 2` -/
+def qCount2 : Query Nat Nat Int :=
+  { outputs := [(0, ⟨.count, none⟩), (1, ⟨.sum, some 0⟩)], pred := .cmp countStar .ge 2 }
+
+def crow (k : Nat) (t : Int) (v : Int) : Row Nat Nat Int := { key := k, ts := t, cells := [(0, .num v)] }
+
+example : CountGe qCount2 2 := rfl
+-- two interleaved groups: each delivers at its 2nd and 4th row, over exactly the two rows since its last delivery
+example : (run id qCount2 [crow 0 1 1, crow 1 2 10, crow 1 3 20, crow 0 4 2, crow 0 5 3, crow 0 6 4]).map (·.map (·.vals)) =
+    [none, none, some [some 2, some 30], some [some 2, some 3], none, some [some 2, some 7]] := by decide
 
 /-! ## non-vacuity -/
 
